@@ -92,10 +92,17 @@ type Body struct {
 	TailSep bool
 }
 
-// File is a root body plus the block most recently removed by RemoveBlock.
+// File is a root body plus the block most recently removed by RemoveBlock,
+// plus what the caller of the API holds on its own side.
 type File struct {
 	Root *Body
 	Held *Item
+	// Caller is the caller's side of the history: for every token-slice value
+	// the caller has made and handed to the writer (keyed by a caller-chosen
+	// id) the texts of the tokens that slice holds now. The caller may change
+	// its own slice after a call; what the writer was given at the time of the
+	// call stays what it was given (items never refer to this map).
+	Caller map[string][]string
 }
 
 func (b *Body) AttrIndex(name string) int {
@@ -289,7 +296,26 @@ func (f *File) Clone() *File {
 	if f.Held != nil {
 		c.Held = f.Held.clone()
 	}
+	if f.Caller != nil {
+		c.Caller = make(map[string][]string, len(f.Caller))
+		for k, v := range f.Caller {
+			c.Caller[k] = append([]string(nil), v...)
+		}
+	}
 	return c
+}
+
+// CallerSlice returns the token texts of the caller's slice id, creating it
+// with the given initial texts when the caller has not made it yet.
+func (f *File) CallerSlice(id string, initial []string) []string {
+	if s, ok := f.Caller[id]; ok {
+		return s
+	}
+	if f.Caller == nil {
+		f.Caller = map[string][]string{}
+	}
+	f.Caller[id] = append([]string(nil), initial...)
+	return f.Caller[id]
 }
 
 // String renders the structure (names, expressions, types, labels, order) of
